@@ -339,9 +339,6 @@ def pathSymlink (fds : Fds) (m : Mem) (old oldLen fd new newLen : Nat) : List Re
 
 /-! ### sockets (sock.go, FSContext.SockAccept) -/
 
-/-- a write whose result the host code does not look at: it happens when the pointer is inside the memory -/
-def optRegion (m : Mem) (off len : Nat) : List Wr := if m.has off len then [Wr.region off len] else []
-def optBytes (m : Mem) (off : Nat) (bs : List Nat) : List Wr := if m.has off bs.length then [Wr.bytes off bs] else []
 
 def sockAccept (fds : Fds) (m : Mem) (fd res : Nat) : List Res :=
   match lookupFd fds fd with
@@ -493,8 +490,8 @@ def call1e (fixed : Bool) (h : Host) (fds : Fds) (m : Mem) (fn : Fn1) (a : List 
   | .fd_close => (match a with | [fd] => some (fdClose fds (w32 fd)) | _ => none)
   | .fd_fdstat_get => (match a with | [fd, r] => some (statLike fds m (w32 fd) (w32 r) 24) | _ => none)
   | .fd_filestat_get => (match a with | [fd, r] => some (statLike fds m (w32 fd) (w32 r) 64) | _ => none)
-  | .fd_seek => (match a with | [fd, _, _, r] => some (seekLike fds (w32 fd) (w32 r)) | _ => none)
-  | .fd_tell => (match a with | [fd, r] => some (seekLike fds (w32 fd) (w32 r)) | _ => none)
+  | .fd_seek => (match a with | [fd, _, _, r] => some (seekLike fds m (w32 fd) (w32 r)) | _ => none)
+  | .fd_tell => (match a with | [fd, r] => some (seekLike fds m (w32 fd) (w32 r)) | _ => none)
   | .proc_exit => (match a with | [_] => some { err := .exit } | _ => none)
   | .sched_yield => (match a with | [] => some { err := .errno 0 } | _ => none)
 
@@ -558,6 +555,29 @@ def designated2e (m : Mem) (fn : Fn2) (a : List Nat) : List (Nat × Nat) :=
   | .sock_send => (match a with | [_, _, _, _, r] => [(r, 4)] | _ => [])
   | _ => []
 
+/-- designated output regions of the 22 functions of the first batch (arguments already reduced to 32 bits) -/
+def designated1e (h : Host) (m : Mem) (fn : Fn1) (a : List Nat) : List (Nat × Nat) :=
+  match fn with
+  | .poll_oneoff => (match a with | [_, o, n, r] => [(o, 32 * n), (r, 4)] | _ => [])
+  | .fd_read => (match a with | [_, iovs, cnt, r] => iovRegions m iovs cnt 0 ++ [(r, 4)] | _ => [])
+  | .fd_pread => (match a with | [_, iovs, cnt, _, r] => iovRegions m iovs cnt 0 ++ [(r, 4)] | _ => [])
+  | .fd_write => (match a with | [_, _, _, r] => [(r, 4)] | _ => [])
+  | .fd_pwrite => (match a with | [_, _, _, _, r] => [(r, 4)] | _ => [])
+  | .args_get => (match a with | [p, q] => [(p, 4 * h.args.length), (q, nulSize h.args)] | _ => [])
+  | .environ_get => (match a with | [p, q] => [(p, 4 * h.env.length), (q, nulSize h.env)] | _ => [])
+  | .args_sizes_get => (match a with | [p, q] => [(p, 4), (q, 4)] | _ => [])
+  | .environ_sizes_get => (match a with | [p, q] => [(p, 4), (q, 4)] | _ => [])
+  | .clock_res_get => (match a with | [_, r] => [(r, 8)] | _ => [])
+  | .clock_time_get => (match a with | [_, _, r] => [(r, 8)] | _ => [])
+  | .random_get => (match a with | [b, l] => [(b, l)] | _ => [])
+  | .fd_prestat_get => (match a with | [_, r] => [(r, 8)] | _ => [])
+  | .fd_prestat_dir_name => (match a with | [_, p, l] => [(p, l)] | _ => [])
+  | .fd_fdstat_get => (match a with | [_, r] => [(r, 24)] | _ => [])
+  | .fd_filestat_get => (match a with | [_, r] => [(r, 64)] | _ => [])
+  | .fd_seek => (match a with | [_, _, _, r] => [(r, 8)] | _ => [])
+  | .fd_tell => (match a with | [_, r] => [(r, 8)] | _ => [])
+  | _ => []
+
 /-- Output regions the signature designates, over the naturals (no wrap-around; arguments already reduced to 32
 bits); mirror of `designated` in harness/cmd/hc15/spec.go (the harness compares the two tables on every generated
 case). -/
@@ -565,26 +585,9 @@ def designated (h : Host) (m : Mem) (fn : String) (a : List Nat) : List (Nat × 
   match Fn2.all.find? (fun f => f.name == fn) with
   | some f => designated2e m f a
   | none =>
-  match fn, a with
-  | "poll_oneoff", [_, o, n, r] => [(o, 32 * n), (r, 4)]
-  | "fd_read", [_, iovs, cnt, r] => iovRegions m iovs cnt 0 ++ [(r, 4)]
-  | "fd_pread", [_, iovs, cnt, _, r] => iovRegions m iovs cnt 0 ++ [(r, 4)]
-  | "fd_write", [_, _, _, r] => [(r, 4)]
-  | "fd_pwrite", [_, _, _, _, r] => [(r, 4)]
-  | "args_get", [p, q] => [(p, 4 * h.args.length), (q, nulSize h.args)]
-  | "environ_get", [p, q] => [(p, 4 * h.env.length), (q, nulSize h.env)]
-  | "args_sizes_get", [p, q] => [(p, 4), (q, 4)]
-  | "environ_sizes_get", [p, q] => [(p, 4), (q, 4)]
-  | "clock_res_get", [_, r] => [(r, 8)]
-  | "clock_time_get", [_, _, r] => [(r, 8)]
-  | "random_get", [b, l] => [(b, l)]
-  | "fd_prestat_get", [_, r] => [(r, 8)]
-  | "fd_prestat_dir_name", [_, p, l] => [(p, l)]
-  | "fd_fdstat_get", [_, r] => [(r, 24)]
-  | "fd_filestat_get", [_, r] => [(r, 64)]
-  | "fd_seek", [_, _, _, r] => [(r, 8)]
-  | "fd_tell", [_, r] => [(r, 8)]
-  | _, _ => []
+    match Fn1.all.find? (fun f => f.name == fn) with
+    | some f => designated1e h m f a
+    | none => []
 
 /-- every byte of the write lies in one of the regions -/
 def Wr.within (w : Wr) (rs : List (Nat × Nat)) : Prop :=
